@@ -21,9 +21,10 @@ it); `get_folder` / `get_file` return the first LIVE match.
 
 Known inexactness, guarded explicitly (`DNode.restoreAmbiguous`, reported by the driver, counted by the rig): creating a
 file/folder whose name equals a DELETED file/folder of the same parent gives two items of one name. The base
-operations that restore by name (`fsRestoreFile`, `fsRestoreFolder`, a completing folder restore) then act on every item
-of that name, while the code acts on the first match (live first). The rig stops comparing a trace at the first such
-operation; the implementation-only oracle (by object identity) still runs over the whole trace.
+FILES are exact: every deleted file carries its place in the folder's `deleted_files` order (`File.delSeq`, from the folder's
+deletion counter), and a restore by name reaches the live namesake, else the first deleted one in that order
+(`File.restoreIn` / `File.restoreAll`); likewise folders (`Folder.delSeq`, `Node.fdelCtr`, `Folder.restoreIn`). What is left of the
+guard concerns two LIVE files of one name (a start state only; no operation produces it). The rig stops comparing a trace there; the implementation-only oracle (by object identity) still runs over the whole trace.
 Core Lean only.
 -/
 import PrimaiteModel.Model.Health
@@ -154,7 +155,7 @@ def DNode.copyFile (d : DNode) (srcF f dstF : String) : DNode :=
     let d1 := match d.n.liveFolder? dstF with
       | some _ => d
       | none => d.createFolder dstF
-    { d1 with n := (d1.n.mapLiveFolder dstF (fun G => G.mapLiveFile f File.delete)).addFile dstF
+    { d1 with n := (d1.n.mapLiveFolder dstF (fun G => G.delLive f)).addFile dstF
                      { name := f, actual := src.actual, visible := src.visible, deleted := false } }
 
 /-- `get_file(F, f, include_deleted=True)` within live folder `G`: first live match, else first deleted match -/
@@ -177,10 +178,10 @@ def DNode.dbReplace (d : DNode) (F f srcF : String) : DNode :=
       match firstAny f G.files with
       | none => d
       | some old =>
-        let n1 := d.n.mapLiveFolder F (fun G => G.mapLiveFile f File.delete)
+        let n1 := d.n.mapLiveFolder F (fun G => G.delLive f)
         { d with n := n1.addFile F { name := f, actual := src.actual, visible := old.visible, deleted := false } }
     | none =>
-      match d.n.findFolder F with
+      match d.n.folders.find? (fun G => G.name = F && firstDeletedFolder d.n.folders G) with
       | none => d
       | some G =>
         match firstAny f G.files with
@@ -201,7 +202,7 @@ if a live file of that name is still there `create_file` raises inside `_store_d
 replacement step `dbReplace`. With `dl = none` nothing arrives and the database file is not touched.
 (`dlClear`, `dlArrive`, then `dbReplace`.) -/
 def DNode.dlClear (d : DNode) (pre : Bool) : DNode :=
-  if pre then { d with n := d.n.mapLiveFolder dlFolder (fun G => G.mapLiveFile dbFile File.delete) } else d
+  if pre then { d with n := d.n.mapLiveFolder dlFolder (fun G => G.delLive dbFile) } else d
 
 /-- the file `_store_data` creates: a fresh file (visible NONE) with the delivered health — written on THAT object only -/
 def arrivedFile (h : FsH) : File := { freshFile dbFile with actual := h }
@@ -280,11 +281,6 @@ def DNode.run (d : DNode) : List DOp → DNode
 /-- Two items of one name under one parent: the by-name restore operations of the base model are then not the code's
 first-match semantics (see the header). -/
 def Folder.twins (G : Folder) : Bool := !(G.files.map (·.name)).Nodup
-/-- two or more DELETED files of one name and no live one: a restore by name reaches the first in DELETION order in the code, all of
-them in the model (a deleted file WITH a live namesake is handled exactly: `File.restoreIn`) -/
-def Folder.deadTwins (G : Folder) : Bool :=
-  G.files.any (fun x => x.deleted && !hasLive x.name G.files &&
-    decide ((G.files.filter (fun y => y.name = x.name && y.deleted)).length ≥ 2))
 def Node.folderTwins (n : Node) : Bool := !(n.folders.map (·.name)).Nodup
 
 /-- two LIVE files named `f` in a live folder named `F`: the by-name file operations of the model would reach both, the code
@@ -296,9 +292,6 @@ def Node.liveTwins (n : Node) (F f : String) : Bool :=
 /-- Would this operation address by name a place where two items share the name in a way the model does not resolve like
 the code (first match)? -/
 def DNode.restoreAmbiguous (d : DNode) : DOp → Bool
-  | .base (.fsRestoreFolder F) => d.n.folderTwins && d.n.folders.any (fun G => G.name = F)
-  | .base (.fsRestoreFile F _) => d.n.folders.any (fun G => G.name = F && !G.deleted && G.deadTwins)
-  | .base .tick | .tickDb _ _ => d.n.folders.any (fun G => !G.deleted && G.restoreCd = 1 && G.deadTwins)
   | .base (.file F f _) | .base (.fsDeleteFile F f) | .base (.folderDelete F f) | .dbReplace F f _ => d.n.liveTwins F f
   | .dbRestore _ _ => d.n.liveTwins dbFolder dbFile || d.n.liveTwins dlFolder dbFile
   | _ => false
